@@ -224,7 +224,7 @@ def step (d : DSt) (line : String) : DSt × String :=
   | ["fsv", k, _, t] => ok (Hawk.Rec.step m st (.fs (if k == "n" then none else some (unhex t))))
   | ["ic", b] => ok (Hawk.Rec.step m st (.ic (b == "1")))
   | ["convfmt", _] => ok st
-  | ["setfnum", i, _, t] => match i.toNat? with            -- $i = <float>; t = its string form under CONVFMT
+  | ["setfnum", i, _, t] => match i.toNat? with            -- $i = <float>; t = its string form (CONVFMT, or %d for a whole number)
     | some i => ok (Hawk.Rec.step m st (.setf i (unhex t)))
     | none => (d, "bad-op")
   | ["mapto", _] => ({ d with dead := true }, "ERR enonsca " ++ dump st)   -- OFS/FS/NF = a map: refused
